@@ -426,3 +426,49 @@ def h_second_solve_penalty(E, shape):
                 E.prove(t["rho"] <= 10.0 * q["rho"], "C16.second_solve.dualnorm_at_most_tenfold")
             else:
                 E.prove(t["rho"] == q["rho"], "C16.second_solve.rho_changes_only_on_accept")
+
+
+def h_observers(E, shape):
+    """C12 for observers that come and go between solves of one Solver: an observer registered
+    before the first solve, one registered after it, one unregistered after it.  Every registered
+    observer is told about every step computation of the solves it is registered for (count, start
+    and end point, accept flag), an unregistered one about none."""
+    env = shared(E, shape)
+    lim = dict(iteration_limit=env.K)
+    S = boot.mod("solver")
+    P = boot.mod("params")
+    CT = boot.mod("callbacks").CallbackType
+    seen = dict(early=[], late=[], gone=[])
+    state = dict(run=0)
+
+    def obs(name):
+        return lambda it, nx, acc: seen[name].append((state["run"], it, nx, acc))
+
+    kw = dict(env.kw)
+    kw.update(penalty_update=P.PenaltyUpdate[env.pol], collect_path=False, time_limit=INF, display_interval=INF, iteration_limit=env.K)
+    solver = S.Solver(env.user, P.Params(**kw))
+    solver.callbacks.register(CT.ComputedStep, obs("early"))
+    h_gone = solver.callbacks.register(CT.ComputedStep, obs("gone"))
+    A = solve_once(env, "a", lim, solver=solver)
+    solver.callbacks.register(CT.ComputedStep, obs("late"))
+    state["run"] = 1
+    B = solve_once(env, "b", lim, script=A.trials, solver=solver)
+    solver.callbacks.unregister(h_gone)
+    state["run"] = 2
+    C = solve_once(env, "c", lim, script=A.trials, solver=solver)
+    for run_no, R in ((0, A), (1, B), (2, C)):
+        want = dict(early=True, late=run_no >= 1, gone=run_no <= 1)
+        for name, on in want.items():
+            got = [s for s in seen[name] if s[0] == run_no]
+            if not on:
+                E.prove(len(got) == 0, "C12.unregistered_observer_is_not_called")
+                continue
+            # the deliberate step-size abort is raised before the callbacks of that trial
+            expect = len(R.trials) - (1 if R.exc == "lamb_max" else 0)
+            E.prove(len(got) == expect, "C12.iterations_equals_callbacks", info=dict(observer=name, run=run_no))
+            if R.res is not None:
+                E.prove(R.res.iterations == len(got), "C12.iterations_equals_callbacks", info=dict(observer=name, run=run_no))
+            ok = True
+            for g, t in zip(got, R.trials):
+                ok = ok and (g[1] is t["it"]) and (g[2] is t["nxt"])
+            E.prove(ok, "C12.callback_announces_this_step", info=dict(observer=name, run=run_no))
